@@ -288,3 +288,170 @@ func TestVerifC26CloseWithBrokenSendDirection(t *testing.T) {
 			rapid.SampledFrom([]string{"Close", "Close+Close"}).Draw(rt, "closer"))
 	})
 }
+
+// ---- CloseWrite against a Write that is parked in the transport under the application's write deadline ----
+//
+// The application set a write deadline; a Write is parked in the transport (peer not reading) and will fail at that
+// deadline. A concurrent CloseWrite wants to send close_notify under a deadline of its own: it may only install that
+// deadline once it owns the outgoing half, i.e. after the parked Write has returned. The transport wrapper records
+// every SetWriteDeadline that arrives WHILE a Write is parked: one that moves the deadline beyond the application's
+// would keep the application's Write blocked past the deadline it asked for. (Logical oracle: no wall-clock threshold.)
+
+type vf26DeadlineConn struct {
+	net.Conn
+	mu       sync.Mutex
+	armed    bool
+	parked   bool
+	wdl      time.Time
+	appDL    time.Time
+	moved    []time.Duration // deadlines installed while a Write was parked, relative to the application's
+	entered  chan struct{}
+	once     sync.Once
+	closed   chan struct{}
+	closedMu sync.Once
+}
+
+func (c *vf26DeadlineConn) SetWriteDeadline(t time.Time) error {
+	c.mu.Lock()
+	if c.parked && !c.appDL.IsZero() && (t.IsZero() || t.After(c.appDL.Add(50*time.Millisecond))) {
+		c.moved = append(c.moved, t.Sub(c.appDL))
+	}
+	c.wdl = t
+	c.mu.Unlock()
+	return c.Conn.SetWriteDeadline(t)
+}
+
+func (c *vf26DeadlineConn) SetDeadline(t time.Time) error {
+	c.SetWriteDeadline(t)
+	return c.Conn.SetReadDeadline(t)
+}
+
+func (c *vf26DeadlineConn) Write(p []byte) (int, error) {
+	c.mu.Lock()
+	if !c.armed {
+		c.mu.Unlock()
+		return c.Conn.Write(p)
+	}
+	c.parked = true
+	dl := c.wdl
+	c.mu.Unlock()
+	c.once.Do(func() { close(c.entered) })
+	var tm <-chan time.Time
+	if !dl.IsZero() {
+		tm = time.After(time.Until(dl))
+	}
+	var err error
+	select {
+	case <-c.closed:
+		err = net.ErrClosed
+	case <-tm:
+		err = vfTimeoutErr{}
+	}
+	c.mu.Lock()
+	c.parked = false
+	c.mu.Unlock()
+	return 0, err
+}
+
+func (c *vf26DeadlineConn) Close() error {
+	c.closedMu.Do(func() { close(c.closed) })
+	return c.Conn.Close()
+}
+
+func TestVerifC26CloseWriteKeepsWriteDeadline(t *testing.T) {
+	st := vfNewStats(t, "C26")
+	run := func(parrot string, mv uint16, closer string, delay time.Duration, size int) {
+		st.Eval()
+		what := fmt.Sprintf("parrot=%s maxvers=%04x closer=%s after %v, write of %d bytes parked under a 150 ms write deadline", parrot, mv, closer, delay, size)
+		cp, sp := vfPipe()
+		wrap := &vf26DeadlineConn{Conn: cp, entered: make(chan struct{}), closed: make(chan struct{})}
+		ccfg := vfClientConfig("stall.c26.test")
+		ccfg.OmitEmptyPsk = true
+		uc := UClient(wrap, ccfg, vf26ParrotByName(parrot).ID)
+		scfg := vfServerConfig("ecdsa", "stall.c26.test")
+		scfg.MaxVersion = mv
+		pair := &vfPair{CP: cp, SP: sp, Cli: uc, Srv: Server(sp, scfg)}
+		if cerr, serr := pair.Handshake(); cerr != nil || serr != nil || pair.Echo([]byte("before"), []byte("BEFORE")) != nil {
+			pair.Close()
+			st.Class("write-deadline:setup-failed")
+			return
+		}
+		cp.SetDeadline(time.Time{})
+		sp.SetDeadline(time.Time{})
+		app := time.Now().Add(150 * time.Millisecond)
+		uc.SetWriteDeadline(app)
+		wrap.mu.Lock()
+		wrap.armed, wrap.appDL = true, app
+		wrap.mu.Unlock()
+		var wg sync.WaitGroup
+		results := make([]string, 2)
+		wg.Add(1)
+		go func() {
+			defer wg.Done()
+			n, err := uc.Write(make([]byte, size))
+			results[0] = fmt.Sprintf("Write: %d, %v", n, err)
+		}()
+		select {
+		case <-wrap.entered:
+		case <-time.After(10 * time.Second):
+			wrap.Close()
+			sp.Close()
+			st.Class("write-deadline:writer-did-not-park")
+			return
+		}
+		wg.Add(1)
+		go func() {
+			defer wg.Done()
+			time.Sleep(delay)
+			var err error
+			if closer == "CloseWrite" {
+				err = uc.CloseWrite()
+			} else {
+				err = uc.Close()
+			}
+			results[1] = fmt.Sprintf("%s: %v", closer, err)
+		}()
+		done := make(chan struct{})
+		go func() { wg.Wait(); close(done) }()
+		prev := vf26ActorMarker
+		vf26ActorMarker = "TestVerifC26CloseWriteKeepsWriteDeadline.func"
+		hang, slow := vf26Watch(done, 12*time.Second)
+		vf26ActorMarker = prev
+		wrap.Close()
+		sp.Close()
+		if hang != "" {
+			st.Violation(vf26HardFail{}, "HANG: %s\ncase: %s\nresults so far: %v", hang, what, results)
+		}
+		if slow != "" {
+			vf26Inconclusive(st, slow+"\ncase: "+what)
+		}
+		wrap.mu.Lock()
+		moved := append([]time.Duration(nil), wrap.moved...)
+		wrap.mu.Unlock()
+		if len(moved) > 0 {
+			st.Violation(t, "%s: while the application's Write was parked in the transport, the write deadline was moved %v beyond the deadline the application set (results %v)", what, moved, results)
+		}
+		st.Class("write-deadline:kept(" + closer + ")")
+		st.NonTrivial("write-deadline|" + what)
+	}
+	for _, mv := range []uint16{VersionTLS13, VersionTLS12} {
+		for _, closer := range []string{"CloseWrite", "Close"} {
+			run("HelloChrome_120", mv, closer, 5*time.Millisecond, 100)
+			run("HelloGolang", mv, closer, 40*time.Millisecond, 40000)
+		}
+	}
+	n := 0
+	rapid.Check(t, func(rt *rapid.T) {
+		if n++; n > 25 && !vfThorough() {
+			return // each case waits for a 150 ms deadline
+		}
+		if n > 200 {
+			return
+		}
+		run(vf26Parrots[rapid.IntRange(0, len(vf26Parrots)-1).Draw(rt, "parrot")].Name,
+			rapid.SampledFrom([]uint16{VersionTLS13, VersionTLS12}).Draw(rt, "maxvers"),
+			rapid.SampledFrom([]string{"CloseWrite", "CloseWrite", "Close"}).Draw(rt, "closer"),
+			time.Duration(rapid.IntRange(0, 100).Draw(rt, "delay_ms"))*time.Millisecond,
+			rapid.SampledFrom([]int{1, 100, 16384, 40000}).Draw(rt, "size"))
+	})
+}
